@@ -295,9 +295,16 @@ func runC19(c *Ctx) (int, error) {
 	inputs := []struct {
 		name, text string
 		bad        bool
-	}{{"valid", validSchema, false}, {"syntax-error", syntaxBad, true}, {"validation-error", validationBad, true}, {"missing-import", missingImport, true}, {"no-such-input", "", true}}
+	}{{"valid", validSchema, false}, {"syntax-error", syntaxBad, true}, {"validation-error", validationBad, true}, {"missing-import", missingImport, true}, {"no-such-input", "", true},
+		// accepted schemas and flags for which the generated text is not valid Go (identifier clashes, F-C12-3; a package name
+		// that is no identifier): whatever the tool makes of them, a run that reports failure must leave the output alone
+		{"keyword-names", "struct S {\n\tint32 type;\n\tstring func;\n}\nmessage range {\n\t1 -> S s;\n}\n", false}}
+	flagSets := [][]string{{}, {"-combined-imports", "-generate-unsafe"}, {}, {"-private-definitions"}, {"-package", "my-pkg"}, {"-private-definitions", "-generate-tags", "-force-pointer-receivers", "-share-string-memory", "-generate-unsafe"}}
 	for _, in := range inputs {
-		for fi, flags := range [][]string{{}, {"-combined-imports", "-generate-unsafe"}, {}} {
+		for fi, flags := range flagSets {
+			if fi >= 3 && in.name != "keyword-names" && in.name != "valid" {
+				continue
+			}
 			// the third pass: -o names a symbolic link to the generated file (whatever the tool does with the link, what
 			// is read through the path must be the old or the complete new contents)
 			viaLink := fi == 2
